@@ -494,6 +494,11 @@ class KeyCache:
         Returns:
             Optional[GroupKeyEnvelope]: The cached key if one was available.
         """
+        if not 0 <= l0 <= 0x7FFFFFFF:
+            # The L0 index is packed as a signed 32-bit value in the KDF
+            # context and in the GetKey request.
+            raise ValueError(f"L0 index {l0} is out of range")
+
         seed_key = self._seed_keys.setdefault(root_key_id, {}).setdefault(target_sd, {}).get(l0, None)
         if seed_key and (seed_key.l1 > l1 or (seed_key.l1 == l1 and seed_key.l2 >= l2)):
             return seed_key
